@@ -19,7 +19,7 @@ C04 (apply_galois_inplace) [N]: symbolic buffer contents through the block marke
   conjugation uses the element of step 0.
 """
 import re
-from facts import walk, callee, root_local, strip, local_of, target_key, Tree
+from facts import walk, callee, root_local, strip, local_of, target_key, Tree, Defs
 from flow import Flow
 
 IGN = {"t", "ta", "l", "c", "el", "id", "lid", "loop_id"}
@@ -564,4 +564,84 @@ def run_galois_total(facts, rep):
             break
     if not found:
         rep.unresolved(R, "apply", "no indexed store into the out-buffer inside a loop", facts.loc(p))
+    return 1
+
+
+def run_generator(facts, rep):
+    """R-PAIR(generator) [N]: the walk that turns a rotation step into a Galois element multiplies by the generator the slot
+    index map is built with — or by a constant that is its inverse modulo 2N for EVERY supported degree.
+
+    In get_elt_from_step every multiplier of the running element (`elt = elt * g & (m - 1)`) is resolved through lets and `if`
+    values to constants.  GALOIS_GENERATOR itself is accepted.  Any other constant c is accepted only if
+    GALOIS_GENERATOR * c == 1 modulo 2 * HE_POLY_MOD_DEGREE_MAX (so that masking it down to 2N gives the inverse for every
+    power-of-two degree); the literal values are read from the constant definitions in the source.  A constant that is an
+    inverse only modulo a smaller power of two maps negative steps to wrong elements for the degrees above it."""
+    import os
+    import re as _re
+    R = "R-PAIR(generator)"
+    rep.rule(R, "every multiplier of the step-to-element walk is GALOIS_GENERATOR or a constant inverse of it modulo "
+             "2 * HE_POLY_MOD_DEGREE_MAX")
+    cand = [p for p in facts.hir if p.endswith("GaloisTool::get_elt_from_step")]
+    if not rep.anchor(R, "GaloisTool::get_elt_from_step", bool(cand)):
+        return 0
+    p = cand[0]
+    rep.fn(p)
+    body = facts.hir[p]
+    defs = Defs(body)
+
+    def const_value(defpath):
+        name = defpath.rsplit("::", 1)[-1]
+        for root, _, files in os.walk(os.path.join(facts.repo, "src")):
+            for fn in files:
+                if fn.endswith(".rs"):
+                    try:
+                        txt = open(os.path.join(root, fn)).read()
+                    except OSError:
+                        continue
+                    m = _re.search(r"\bconst\s+%s\s*:\s*\w+\s*=\s*(0x[0-9a-fA-F_]+|[0-9_]+)\s*;" % _re.escape(name), txt)
+                    if m:
+                        return int(m.group(1).replace("_", ""), 0)
+        return None
+    gen = const_value("GALOIS_GENERATOR")
+    nmax = const_value("HE_POLY_MOD_DEGREE_MAX")
+    muls = []
+    for x in walk(body):
+        if x.get("k") == "Bin" and x.get("op") == "*":
+            for me, other in ((x["a"], x["b"]), (x["b"], x["a"])):
+                lo = local_of(me)
+                if lo and "elt" in lo[1]:
+                    muls.append((x, other))
+        if x.get("k") == "AssignOp" and x.get("op") in ("*", "*=") and local_of(x["lhs"]) and "elt" in local_of(x["lhs"])[1]:
+            muls.append((x, x["rhs"]))
+    if not muls or gen is None or nmax is None:
+        rep.unresolved(R, "walk", "the element walk or the constants GALOIS_GENERATOR / HE_POLY_MOD_DEGREE_MAX were not found", facts.loc(p))
+        return 1
+    consts = set()
+    other_leaf = False
+    for _, m in muls:
+        for y in defs.closure(m):
+            if y.get("k") == "Path" and y.get("res") != "local" and "Const" in str(y.get("res", "")):
+                consts.add(y.get("def"))
+    bad = []
+    for c in sorted(consts):
+        nm = c.rsplit("::", 1)[-1]
+        if nm == "GALOIS_GENERATOR":
+            continue
+        v = const_value(c)
+        if v is None:
+            bad.append((nm, None))
+        elif (gen * v) % (2 * nmax) != 1:
+            bad.append((nm, v))
+    if not consts:
+        rep.unresolved(R, "walk", "the multiplier of the element walk does not resolve to constants", facts.loc(p, muls[0][0]))
+    elif bad:
+        nm, v = bad[0]
+        rep.violation(R, "walk", "the element walk multiplies by the constant %s%s, which is neither GALOIS_GENERATOR nor its inverse "
+                      "modulo 2 * HE_POLY_MOD_DEGREE_MAX = %d (%d * %s = %s mod %d): for the degrees where it is not the inverse, "
+                      "steps that use it are mapped to the wrong Galois element" %
+                      (nm, "" if v is None else " = %#x" % v, 2 * nmax, gen, "?" if v is None else "%#x" % v,
+                       "?" if v is None else (gen * v) % (2 * nmax), 2 * nmax), facts.loc(p, muls[0][0]))
+    else:
+        rep.ok(R, "walk", "multipliers of the element walk: %s" % ", ".join(sorted(c.rsplit("::", 1)[-1] for c in consts)),
+               facts.loc(p, muls[0][0]), sample={"constants": sorted(consts)})
     return 1
